@@ -1003,6 +1003,13 @@ fn main() {
                 Value::make_list(vec![Value::make_number_unit(1.0, unit("m"))]),
                 Value::make_dict(mk(&[])), Value::make_dict(mk(&[("a", Value::make_int(2))])), Value::make_dict(mk(&[("a", Value::make_int(1)), ("c", Value::make_int(1))])),
                 Value::make_dict(mk(&[("a", Value::make_int(2)), ("b", Value::make_int(1))])), Value::make_dict(mk(&[("a", Value::make_int(1))])),
+                // records: dicts with the tags the library itself gives a meaning to (id, dis, mod), with ids ordered against the other keys
+                Value::make_dict(mk(&[("id", Value::make_ref("r1"))])), Value::make_dict(mk(&[("id", Value::make_ref("r2"))])),
+                Value::make_dict(mk(&[("id", Value::make_ref_with_dis("r1", "One"))])),
+                Value::make_dict(mk(&[("a", Value::Marker), ("id", Value::make_ref("r2"))])), Value::make_dict(mk(&[("b", Value::Marker)])),
+                Value::make_dict(mk(&[("c", Value::Marker), ("id", Value::make_ref("r1"))])),
+                Value::make_dict(mk(&[("dis", Value::make_str("z")), ("id", Value::make_ref("r1"))])), Value::make_dict(mk(&[("dis", Value::make_str("a")), ("id", Value::make_ref("r2"))])),
+                Value::make_dict(mk(&[("id", Value::make_str("r1"))])),
                 dt("2021-01-19T19:48:23Z", "UTC"), dt("2021-01-19T19:48:23Z", "London"), dt("2021-01-19T14:48:23-05:00", "New_York"), dt("2021-01-19T19:48:24Z", "UTC"),
             ];
             for a in &vals { for b in &vals { for c in &vals {
@@ -1028,6 +1035,13 @@ fn main() {
                 if vals.len() < 3 { continue; }
                 let k = vals.len(); for i in 0..k { if rng.below(2) == 0 { let c = vals[i].clone(); vals.push(c); } }
                 vals.push(Value::make_list(vals[..3].to_vec())); vals.push(Value::make_list(vals[..3].to_vec()));
+                // records: random dicts that carry an id Ref from a small pool (with or without display name), and one without id
+                for _ in 0..3 {
+                    let mut d = dict(&mut rng, 1, &IDS, &STRS, &UNITS, &ZONES);
+                    let id = format!("r{}", rng.below(3));
+                    d.insert("id".into(), if rng.below(2) == 0 { Value::make_ref(&id) } else { Value::make_ref_with_dis(&id, STRS[rng.below(STRS.len())]) });
+                    if !format!("{d:?}").contains("NaN") { vals.push(Value::make_dict(d)); }
+                }
                 for a in &vals { for b in &vals { for c in &vals {
                     n += 1;
                     let bad = laws(a, b, c);
